@@ -714,19 +714,45 @@ impl RdfPlanner {
         }
 
         // For INSERT operations, we execute all operators in sequence
-        let mut operators: Vec<Box<dyn Operator>> = Vec::new();
-        let mut columns = Vec::new();
+        let mut planned: Vec<(Box<dyn Operator>, Vec<String>)> = Vec::new();
+        for input in &union.inputs {
+            planned.push(self.plan_operator(input)?);
+        }
 
-        for (i, input) in union.inputs.iter().enumerate() {
-            let (op, cols) = self.plan_operator(input)?;
-            operators.push(op);
-            if i == 0 {
-                columns = cols;
+        if planned.len() == 1 {
+            return Ok(planned.into_iter().next().unwrap());
+        }
+
+        // The result has every variable of every branch, in order of first appearance
+        let mut columns: Vec<String> = Vec::new();
+        for (_, cols) in &planned {
+            for col in cols {
+                if !columns.contains(col) {
+                    columns.push(col.clone());
+                }
             }
         }
 
-        if operators.len() == 1 {
-            return Ok((operators.into_iter().next().unwrap(), columns));
+        // A branch with another column layout hands its rows on under the common one:
+        // its own columns by name, the variables it does not bind as nulls
+        let mut operators: Vec<Box<dyn Operator>> = Vec::new();
+        for (op, cols) in planned {
+            if cols == columns {
+                operators.push(op);
+            } else {
+                let projections: Vec<ProjectExpr> = columns
+                    .iter()
+                    .map(|name| match cols.iter().position(|c| c == name) {
+                        Some(idx) => ProjectExpr::Column(idx),
+                        None => ProjectExpr::Constant(Value::Null),
+                    })
+                    .collect();
+                operators.push(Box::new(ProjectOperator::new(
+                    op,
+                    projections,
+                    derive_rdf_schema(&columns),
+                )));
+            }
         }
 
         // Create a chain operator that executes all operators in sequence
